@@ -40,7 +40,7 @@ func genLoadSpec(t *rapid.T) loadSpec {
 }
 
 func genC09(t *rapid.T) c09Prog {
-	cfg := sim.GenConfig{MaxReplicas: 4, MaxOps: ev.Scale(28, 60), MinOps: 2, Codecs: []int{0, 1}, AppendBias: 2, LargeOneIn: ev.Scale(96, 64), WithLoad: true}
+	cfg := sim.GenConfig{MaxReplicas: 4, MaxOps: ev.Scale(28, 60), MinOps: 2, Codecs: []int{0, 1}, AppendBias: 2, LargeOneIn: ev.Scale(96, 64), WithLoad: true, ContinuedOneIn: 5}
 	w := sim.Gen(t, cfg)
 	p := c09Prog{World: w, Replica: rapid.IntRange(0, 11).Draw(t, "replica")}
 	p.Merge = rapid.Bool().Draw(t, "merge")
@@ -109,6 +109,10 @@ func runC09(tb ev.TB, p c09Prog) ev.Result {
 				sim.MustOK(tb, w.Exec(tb, -1, sim.Op{Kind: "join", A: ri, B: i}, false))
 			}
 		}
+	}
+	if p.World.Continued > 0 && len(w.Reps[ri].Model) <= p.World.Continued {
+		// a log that continues another log's history: the state that is published holds at least one entry of its own
+		sim.MustOK(tb, w.Exec(tb, -1, sim.Op{Kind: "append", A: ri, Payload: "continued"}, false))
 	}
 	r := w.Reps[ri]
 	if len(r.Model) == 0 {
@@ -217,6 +221,9 @@ func runC09(tb ev.TB, p c09Prog) ev.Result {
 	if hasRefs(w, r.Model) {
 		classes = append(classes, "skip-refs")
 	}
+	if p.World.Continued > 0 {
+		classes = append(classes, "continues-another-log")
+	}
 	return ev.Result{NonTrivial: nt, Classes: classes}
 }
 
@@ -230,7 +237,7 @@ type loadedLog struct {
 
 func TestC09(t *testing.T) {
 	c := ev.Get("C09")
-	c.Rule = "a generated multi-replica program (default or link-key codec, both orderings, skip references from pointer counts up to 64) builds log states; one replica state is reloaded 1-3 times, each with a generated loader (manifest / JSON heads / head entries / head hash when single-headed), fetch concurrency in {default,1,2,3,16} and - in 3 of 4 loads - a gated store whose outstanding block reads are released in a generated order. The loaded log must have the same id, entry set (== model set), heads (== unreferenced in the model) and values (== reference sort when strict-total, permutation otherwise). Non-trivial = source with >= 2 heads or skip references and at least one read completed out of issue order; distinct = distinct program."
+	c.Rule = "a generated multi-replica program (default or link-key codec, both orderings, skip references from pointer counts up to 64) builds log states - in about one program in five the log continues, under its own id, a history of 1-9 entries written under another log id, which every replica holds from the start; one replica state is reloaded 1-3 times, each with a generated loader (manifest / JSON heads / head entries / head hash when single-headed), fetch concurrency in {default,1,2,3,16} and - in 3 of 4 loads - a gated store whose outstanding block reads are released in a generated order. The loaded log must have the same id, entry set (== model set), heads (== unreferenced in the model) and values (== reference sort when strict-total, permutation otherwise). Non-trivial = source with >= 2 heads or skip references and at least one read completed out of issue order; distinct = distinct program."
 	c.Assumptions = []string{"completion orders are produced by a polling controller (settle window 300µs): every order it produces is legal, but a given schedule may map to different orders on a loaded machine; the realised order is stored in the replay file and enforced on replay", "the legacy codec is not reloaded (it cannot read back the v2 entries it writes)"}
 	ev.Check(t, "C09", genC09, runC09)
 }
